@@ -6,6 +6,7 @@ import (
 	"crypto"
 	"os"
 	"path/filepath"
+	"strings"
 	"sync"
 
 	intoto "github.com/in-toto/in-toto-golang/in_toto"
@@ -44,6 +45,17 @@ func Key(name string) *K {
 	}
 	k := &K{Name: name}
 	var err error
+	// "<name>^": the pool key <name> as a key object whose key id is spelled with upper-case hex digits
+	// (key ids are hex strings; the library accepts either case in metadata and key objects)
+	upper := strings.HasSuffix(name, "^")
+	name = strings.TrimSuffix(name, "^")
+	defer func() {
+		if upper {
+			k.ID = strings.ToUpper(k.ID)
+			k.Full.KeyID, k.Pub.KeyID = k.ID, k.ID
+		}
+		keyCache[k.Name] = k
+	}()
 	if k.PrivPEM, err = os.ReadFile(filepath.Join(KeyDir(), name+".pkcs8.pem")); err != nil {
 		panic(err)
 	}
